@@ -103,6 +103,9 @@ class Canon:
       elt, bv, src = a.args
       if isinstance(bv, Poly) and bv.as_atom() is not None:
         bv = bv.as_atom()
+      # a comprehension over a comprehension runs over the index set of the innermost source (elements were already resolved by index)
+      while isinstance(src, Poly) and src.as_atom() is not None and src.as_atom().kind == "map" and len(src.as_atom().args) == 3:
+        src = src.as_atom().args[2]
       self.depth += 1
       cb = Atom("cbv", self.depth)
       elt2 = rebuild(elt.deep_subst(bv, Poly.atom(cb))) if isinstance(elt, Poly) else elt
